@@ -11,6 +11,8 @@ import (
 
 var defaultIntrinsics = map[string]Intrinsic{}
 
+var opaqueHandlers = map[string]func(*Machine, Opaque, string, []Value) Value{}
+
 // ErrorV is an opaque error value carrying a message.
 type ErrorV struct {
 	Msg   Str
@@ -61,7 +63,7 @@ func (m *Machine) opaqueMethod(o Opaque, name string, args []Value) Value {
 			return e.Cause
 		}
 	}
-	if h, ok := m.Extra["opaque:"+o.Kind].(func(*Machine, Opaque, string, []Value) Value); ok {
+	if h, ok := opaqueHandlers[o.Kind]; ok {
 		return h(m, o, name, args)
 	}
 	m.unsupported("method " + name + " on opaque " + o.Kind)
@@ -471,13 +473,6 @@ func init() {
 			return ConcStr("errno "+strconv.FormatUint(t.Val, 10), m.S)
 		}
 		return ConcStr("errno ?", m.S)
-	})
-	reg("os.Exit", func(m *Machine, fn *ssa.Function, a []Value) Value {
-		c := a[0].(*Term)
-		code := m.ConcreteInt(c, "exit code")
-		m.Extra["exit"] = code
-		m.end("exit", strconv.Itoa(code))
-		return nil
 	})
 	flagVar := func(m *Machine, fn *ssa.Function, a []Value) Value {
 		m.store(a[0].(Ptr), a[2])
